@@ -4,8 +4,8 @@ import (
 	"bytes"
 	"encoding/binary"
 	"errors"
-	"io"
 	"fmt"
+	"io"
 	"math/big"
 	"time"
 
